@@ -207,6 +207,7 @@ class Summariser:
         self.self_cls = self_cls or (fi.cls.name if fi.cls else None)
         st = _State()
         a = fi.node.args
+        self._type_params(fi)
         for arg in a.posonlyargs + a.args + a.kwonlyargs:
             st.env[arg.arg] = N.param(arg.arg)
         if a.vararg:
@@ -229,6 +230,23 @@ class Summariser:
         if bindings is None:
             self.cache[key] = paths
         return paths
+
+    POSITIONAL = {"_parse": {1: "stream", 2: "ctx"}, "_parsereport": {1: "stream", 2: "ctx"}, "_actualsize": {1: "stream", 2: "ctx"},
+                  "_build": {2: "stream", 3: "ctx"}, "_sizeof": {1: "ctx"}, "_decode": {2: "ctx"}, "_encode": {2: "ctx"}, "_validate": {2: "ctx"}}
+
+    def _type_params(self, fi):
+        """Protocol methods receive the stream / context by position, whatever the parameter is called."""
+        self.stream_params, self.ctx_params = set(), set()
+        names = [x.arg for x in fi.node.args.posonlyargs + fi.node.args.args]
+        offset = 0 if (names and names[0] == "self") else -1
+        for pos, role in self.POSITIONAL.get(fi.node.name, {}).items():
+            i = pos + offset
+            if 0 <= i < len(names):
+                (self.stream_params if role == "stream" else self.ctx_params).add(names[i])
+        self.local_names = set()
+        for n in ast.walk(fi.node):
+            if isinstance(n, ast.Name) and isinstance(n.ctx, ast.Store):
+                self.local_names.add(n.id)
 
     # ------------------------------------------------------------- statements
     def block(self, stmts, st):
@@ -690,6 +708,9 @@ class Summariser:
             return st.env[node.id]
         if node.id in ("True", "False", "None"):
             return N.const({"True": True, "False": False, "None": None}[node.id])
+        if node.id in getattr(self, "local_names", ()) and st.depth == 0:
+            self.emit(st, "UNDEF", {"name": node.id}, node)
+            return ("undef", node.id)
         return ("free", node.id)
 
     def e_Attribute(self, node, st):
@@ -848,7 +869,7 @@ class Summariser:
             return False
         k = t[0]
         if k == "param":
-            return t[1] in STREAM_NAMES
+            return t[1] in STREAM_NAMES or t[1] in getattr(self, "stream_params", ())
         if k == "newstream":
             return True
         if k == "attr":
@@ -869,7 +890,7 @@ class Summariser:
         if not isinstance(t, tuple):
             return False
         if t[0] == "param":
-            return t[1] in CTX_NAMES
+            return t[1] in CTX_NAMES or t[1] in getattr(self, "ctx_params", ())
         if t[0] == "newctx":
             return True
         if t[0] == "attr":
@@ -1044,6 +1065,10 @@ class Summariser:
                 self.emit(st, "CTXUPDATE", {"ctx": base, "src": args[0] if args else None}, node)
                 return N.NONE
         if base == ("param", "self") and self.self_cls and M.resolve(self.self_cls, meth) is not None:
+            if not (meth.startswith("_emit") or meth.startswith("_compile") or meth in self.POSITIONAL or meth.startswith("__")):
+                r = self.inline(M.resolve(self.self_cls, meth), (base,) + args, kws, node, st, bound=True)
+                if r is not None:
+                    return r
             t = ("selfcall", meth, args, kws)
             self.emit(st, "SELFCALL", {"method": meth, "args": args, "kw": kws, "res": t}, node)
             return t
@@ -1070,14 +1095,14 @@ class Summariser:
         c = self.fi.cls
         return c is not None and any(b in ("io.BytesIO", "BytesIO") for b in c.bases)
 
-    def inline(self, fi, args, kws, node, st):
+    def inline(self, fi, args, kws, node, st, bound=False):
         if fi is None or st.depth >= self.inline_depth:
             return None
         a = fi.node.args
         names = [x.arg for x in a.posonlyargs + a.args]
         if any(isinstance(d, ast.Name) and d.id == "staticmethod" for d in fi.node.decorator_list):
             pass
-        elif names and names[0] == "self":
+        elif names and names[0] == "self" and not bound:
             return None
         sub = st.fork()
         sub.env = {}
